@@ -47,6 +47,17 @@ def byte_form(prog, mod, e: ast.expr) -> str:
             return "const:%d" % v
     except NotConst:
         pass
+    def strip16(a):
+        """x & 0xFFFF -> (x, True): the low 16 bits of x are all a byte of the frame can see anyway"""
+        if isinstance(a, ast.BinOp) and isinstance(a.op, ast.BitAnd):
+            for u, w in ((a.left, a.right), (a.right, a.left)):
+                try:
+                    if prog.consteval(w, mod) == 0xFFFF:
+                        return u, True
+                except NotConst:
+                    pass
+        return a, False
+
     if isinstance(e, ast.BinOp) and isinstance(e.op, ast.BitAnd):
         for a, b in ((e.left, e.right), (e.right, e.left)):
             try:
@@ -54,20 +65,37 @@ def byte_form(prog, mod, e: ast.expr) -> str:
             except NotConst:
                 continue
             if mask == 0xFF:
+                a, _ = strip16(a)
                 if isinstance(a, ast.BinOp) and isinstance(a.op, ast.RShift):
                     try:
                         if prog.consteval(a.right, mod) == 8:
-                            return "hi(%s)" % norm(a.left)
+                            return "hi(%s)" % norm(strip16(a.left)[0])
                     except NotConst:
                         pass
                 return "lo(%s)" % norm(a)
     if isinstance(e, ast.BinOp) and isinstance(e.op, ast.RShift):
         try:
             if prog.consteval(e.right, mod) == 8:
-                return "unmasked-hi(%s)" % norm(e.left)
+                inner, masked16 = strip16(e.left)
+                return ("hi(%s)" if masked16 else "unmasked-hi(%s)") % norm(inner)       # (x & 0xFFFF) >> 8 is at most 0xFF
         except NotConst:
             pass
-    return "raw(%s)" % norm(e)
+    return "raw(%s)" % norm(_shift_as_division(e))
+
+
+class _ShiftAsDivision(ast.NodeTransformer):
+    """x >> k (k a literal) written as x // 2**k: one spelling for the reference comparison"""
+
+    def visit_BinOp(self, n):
+        n = self.generic_visit(n)
+        if isinstance(n.op, ast.RShift) and isinstance(n.right, ast.Constant) and isinstance(n.right.value, int) and 0 <= n.right.value <= 16:
+            return ast.copy_location(ast.BinOp(left=n.left, op=ast.FloorDiv(), right=ast.Constant(value=2 ** n.right.value)), n)
+        return n
+
+
+def _shift_as_division(e: ast.expr) -> ast.expr:
+    import copy
+    return ast.fix_missing_locations(_ShiftAsDivision().visit(copy.deepcopy(e)))
 
 
 class _Subst(ast.NodeTransformer):
@@ -176,6 +204,11 @@ class _BytesEval:
                         inner = (x.left if _const(prog, fn, x.right) == 0xFFFF else x.right) if masked else x
                         t = norm(inner)
                         halves = ["hi(%s)" % t, "lo(%s)" % t] if masked else ["tobytes-hi(%s)" % t, "tobytes-lo(%s)" % t]
+                        r0 = recv
+                        if isinstance(r0, ast.BinOp) and isinstance(r0.op, ast.BitAnd):
+                            r0 = r0.left if _const(prog, fn, r0.right) == 0xFFFF else (r0.right if _const(prog, fn, r0.left) == 0xFFFF else r0)
+                        if isinstance(r0, ast.Name) and env.get(r0.id, ("",))[0] == "crc":
+                            halves = [("crc-hi", tuple(env[r0.id][1])), ("crc-lo", tuple(env[r0.id][1]))]          # (crc & 0xFFFF).to_bytes(2, ...)
                     return ("bytes", halves if order == "big" else halves[::-1])
                 if n == 1:
                     return ("bytes", ["raw(%s)" % norm(_subst(recv, self._scalar_env(env)))])
@@ -228,6 +261,14 @@ class _BytesEval:
                     if isinstance(val, ast.Call):
                         from ..astutil import inline_pure_calls
                         val = inline_pure_calls(self.res, fn, val)
+                    if isinstance(val, ast.Call) and isinstance(val.func, ast.Name) and val.func.id == "divmod" and len(val.args) == 2 and not val.keywords \
+                            and len(tgt.elts) == 2 and _const(self.prog, fn, val.args[1]) == 256:
+                        # hi, lo = divmod(x, 256)   ==   x >> 8, x & 0xFF  (floor division, any sign)
+                        x_ = val.args[0]
+                        val = ast.Tuple(elts=[ast.BinOp(left=x_, op=ast.RShift(), right=ast.Constant(value=8)),
+                                              ast.BinOp(left=x_, op=ast.BitAnd(), right=ast.Constant(value=0xFF))], ctx=ast.Load())
+                        ast.copy_location(val, st.value)
+                        ast.fix_missing_locations(val)
                     val = _subst(val, self._scalar_env(env)) if not isinstance(val, (ast.Tuple, ast.List)) else val
                     if not isinstance(val, (ast.Tuple, ast.List)) or len(val.elts) != len(tgt.elts):
                         raise AnalysisError("statement %s of %s is not understood by the frame builder analysis" % (norm(st)[:60], fn.short))
@@ -519,6 +560,8 @@ class Bounds:
                 return l[0] - r[1], l[1] - r[0], "difference"
             if isinstance(e.op, ast.FloorDiv) and r[0] == r[1] and r[0] and r[0] > 0 and None not in (l[0], l[1]):
                 return l[0] // r[0], l[1] // r[0], "quotient"
+            if isinstance(e.op, ast.RShift) and r[0] == r[1] and r[0] is not None and 0 <= r[0] <= 64 and None not in (l[0], l[1]):
+                return l[0] >> r[0], l[1] >> r[0], "shifted right"
             if isinstance(e.op, ast.Mult) and None not in (l[0], r[0], l[1], r[1]):
                 c = [l[0] * r[0], l[0] * r[1], l[1] * r[0], l[1] * r[1]]
                 return min(c), max(c), "product"
@@ -644,6 +687,16 @@ def template_parts(js: ast.expr) -> Optional[List[Tuple[str, object]]]:
         l, r = template_parts(js.left), template_parts(js.right)
         return None if l is None or r is None else l + r
     if isinstance(js, ast.Call) and isinstance(js.func, ast.Attribute) and js.func.attr == "hex" and not js.args:
+        tb = js.func.value
+        if isinstance(tb, ast.Call) and isinstance(tb.func, ast.Attribute) and tb.func.attr == "to_bytes":
+            # X.to_bytes(N, 'big').hex() is the field {X:0(2N)x} (for X in range; a larger X raises instead of widening)
+            kw = {k.arg: k.value for k in tb.keywords}
+            n_e = tb.args[0] if tb.args else kw.get("length")
+            o_e = tb.args[1] if len(tb.args) > 1 else kw.get("byteorder")
+            sg = kw.get("signed")
+            if isinstance(n_e, ast.Constant) and isinstance(n_e.value, int) and (o_e is None or (isinstance(o_e, ast.Constant) and o_e.value == "big")) \
+                    and (sg is None or (isinstance(sg, ast.Constant) and sg.value is False)):
+                return [("field", (tb.func.value, 2 * n_e.value))]
         return [("hexbytes", js.func.value)]
     if isinstance(js, ast.Call) and isinstance(js.func, ast.Name) and js.func.id == "format" and len(js.args) == 2 and isinstance(js.args[1], ast.Constant) \
             and isinstance(js.args[1].value, str) and re.fullmatch(r"0(\d+)x", js.args[1].value):
@@ -671,7 +724,7 @@ def template_parts(js: ast.expr) -> Optional[List[Tuple[str, object]]]:
                 spec = v.format_spec.values[0].value if v.format_spec is not None and v.format_spec.values and isinstance(v.format_spec.values[0], ast.Constant) else None
                 if spec is None:
                     if isinstance(v.value, ast.Call) and isinstance(v.value.func, ast.Attribute) and v.value.func.attr == "hex":
-                        out.append(("hexbytes", v.value.func.value))
+                        out += template_parts(v.value)          # {x.hex()} / {X.to_bytes(N, 'big').hex()}
                         continue
                     return None
                 m = re.fullmatch(r"0(\d+)x", spec)
